@@ -6,6 +6,7 @@ import (
 	"go/token"
 	"go/types"
 	"os"
+	"sort"
 	"strings"
 
 	"golang.org/x/tools/go/ssa"
@@ -19,46 +20,67 @@ const c02Pkg = "schemes/enc/v1"
 
 func checkC02(c *Ctx) {
 	r, p := c.R, c.P
-	r.Explanation = "Decides structural necessary conditions of C02 on schemes/enc/v1. " +
-		"(T1) in fileKey.DecryptSegment every use of the output writer is dominated by the success edge of cipher.AEAD.Open (verify before release), a failed Open makes the function return a non-nil error, the ciphertext handed to Open is the segment parameter, and the nonce handed to Open depends on both the segment number and the finality flag (through the nonce builder, whose result bytes must depend on both parameters), every return that may carry a nil error lies behind Open's success edge (no exception for short or empty segments), and the 32 bits of the segment number reach the nonce injectively (binary PutUint32 of the number, or four byte stores byte(num>>{0,8,16,24}) at four distinct constant offsets, in a window disjoint from the finality byte and not overwritten afterwards; unclassifiable layouts are UNDECIDED); " +
-		"(T3) in processSegments, along every path, the first Close/CloseWithError on the pipe is an error close whenever a source-reader error other than io.EOF (io.ErrUnexpectedEOF is NOT end of input, also not behind io.ReadFull/ReadAtLeast; an error variable re-assigned from a sentinel does not count as the source error) or a processFn error is pending, and no return leaves the pipe open with such an error pending; " +
-		"(T4) the segment number handed to processFn is a loop-carried counter that changes in every iteration, and after a call made with last=true no further segment is processed; " +
-		"(T4-counter-range) on every path between two processFn calls an edge bounds the counter so that the next number neither wraps (same width) nor is truncated (narrowing conversion of a wider counter) — processSegments is shared by Encrypt and Decrypt, so a missing bound is nonce reuse on one side and lost position binding on the other; " +
-		"(H1/H2) in readHeader a source-read error not established to be io.EOF is returned (never dropped on a success return, also when it arrives together with the bytes that complete the header), and the reader pushed back into *in still contains the source unless the source returned io.EOF; " +
-		"(T5) a clean close of the stream is reachable only after a processFn call made with last=true (from the entry: T5-first, after a non-final call: T5-next); " +
-		"(T7) Decrypt returns the reader half of an io.Pipe whose writer half is driven by processSegments with fileKey.DecryptSegment bound to the file key imported from the manifest. " +
-		"NOT decided: that AEAD rejects a given mutation (trusted primitive), that the bytes released are a prefix of the plaintext as a runtime fact, byte-exact round trip (C01), anything about the header MAC (NOTE only: every payload byte is authenticated by the AEAD under a key derived from the file key and nonce prefix, so the statement holds with or without the MAC), constant-time behaviour, the number of bytes written, the Read-chunking contract of the fill loop (C01-R1)."
+	r.Explanation = "Decides structural necessary conditions of C02 on schemes/enc/v1. The functions are found by ROLE from the exported entry point Decrypt, not by their unexported names: the segment decryptor(s) = functions reachable from Decrypt with the signature func(io.Writer, []byte, uint32, bool) error; the segment loop(s) = functions reachable from Decrypt that call such a processor while holding the *io.PipeWriter (or, when the loop reports to a caller that holds the pipe, the source reader); the header reader(s) = functions reachable from Decrypt outside the loop that read from a reader they were given. Inside them the pipe, the source and the processor are identified by type and data flow (parameter, captured variable or struct field alike), same-package helpers are followed (authenticating helpers, nonce builders incl. tuple-returning ones and in-place construction, read helpers, helpers that close the pipe, error-classification predicates, error-wrapping helpers, a loop that returns its outcome to a closing caller), and all path reasoning is on the SSA control-flow graph (dominance, may/must flows, a path explorer with value-numbered comparison facts). " +
+		"(T1) in the segment decryptor every use of the output writer is dominated by the success edge of cipher.AEAD.Open (or of the helper that calls it); a failed authentication makes the function return a non-nil error; every return that may carry a nil error lies behind that success edge (no exception for short or empty segments); Open is given the whole segment; the nonce depends on the segment number and on the finality flag, also where it is built; the 32 bits of the number reach the nonce injectively (PutUint32 / four byte stores at distinct constant offsets, window disjoint from the finality byte and not overwritten afterwards; or an append/AppendUint32 chain; unclassifiable layouts are UNDECIDED); " +
+		"(T3) in the segment loop, along every path, the first close of the pipe (Close / CloseWithError / a helper that closes / the return of a loop that reports to a closing caller) is an error close whenever a source-read error other than io.EOF (io.ErrUnexpectedEOF is NOT end of input, also not behind io.ReadFull/ReadAtLeast) or a processor error is pending, and no return leaves the pipe open with such an error pending; read helpers must return every non-EOF read error; " +
+		"(T4) the segment number handed to the processor is a loop-carried counter that changes in every iteration; after a call with last=true no further segment is processed; (T4-counter-range) between two processor calls an edge bounds the counter so that the number neither wraps nor is truncated (the loop is shared by Encrypt and Decrypt); " +
+		"(T5) a clean close is reachable only after a processor call with last=true (from the entry: T5-first, after a non-final call: T5-next); " +
+		"(H1/H2) in the header reader a source-read error not established to be io.EOF is returned, and the reader handed on (stored through the *io.Reader parameter, or returned) still contains the source unless the source returned io.EOF; " +
+		"(T7) Decrypt returns the read half of the io.Pipe whose write half reaches the segment loop, and the processor the loop gets on the way from Decrypt authenticates (calls AEAD.Open, itself or through same-package functions). " +
+		"NOT decided: that AEAD rejects a given mutation (trusted primitive), that the bytes released are a prefix of the plaintext as a runtime fact, byte-exact round trip (C01), anything about the header MAC (NOTE only: every payload byte is authenticated by the AEAD under a key derived from the file key and nonce prefix, so the statement holds with or without the MAC), constant-time behaviour, the number of bytes written, the Read-chunking contract of the fill loop (C01-R1). UNDECIDED (not followed): error variables or the pipe captured by closures (e.g. a single deferred closure that closes the pipe according to a captured error), a segment counter kept in a struct field, helpers nested more than three levels, a segment processor with a different signature."
 	r.Assumptions = append(r.Assumptions,
 		"cipher.AEAD.Open returns a non-nil error for any ciphertext/nonce pair not produced by Seal under the same key (trusted primitive)",
-		"package-level sentinel errors (ErrDecryptionFailed, io.ErrUnexpectedEOF, ...) are non-nil and not reassigned",
+		"package-level sentinel errors (ErrDecryptionFailed, io.ErrUnexpectedEOF, ...) are non-nil and not reassigned; errors.New / fmt.Errorf and same-package helpers all of whose returns are such values return non-nil errors",
 		"io.PipeWriter: the first Close/CloseWithError wins (documented: later calls do not overwrite the error)",
 		"the path explorer treats x+positive constant as non-zero (no wrap); that the segment counter cannot wrap is itself decided by rule T4-counter-range",
-		"a phi that may carry an error value is treated as carrying it when it is tested against nil (error variables are not overwritten between the call and the test)")
+		"a phi that may carry an error value is treated as carrying it when it is tested against nil (error variables are not overwritten between the call and the test)",
+		"cipher.AEAD.Open/Seal only read their nonce argument; the standard reader wrappers (io.MultiReader, io.LimitReader, io.TeeReader, bufio.NewReader) keep reading from the readers they wrap")
 
-	r.Rule("C02.T1-verify-before-release", "DecryptSegment: every use of the output writer is dominated by the err==nil edge of AEAD.Open", 1)
-	r.Rule("C02.T1-success-implies-verified", "DecryptSegment: every return that may carry a nil error is behind the err==nil edge of AEAD.Open (no exception for short or empty segments)", 1)
-	r.Rule("C02.T1-nonce-injective", "nonce builder: the 32 bits of the segment number reach the nonce injectively, in a window disjoint from the flag byte and not overwritten afterwards", 1)
-	r.Rule("C02.T1-open-failure-returns-error", "DecryptSegment: a return reached with Open's error non-nil returns a non-nil error", 1)
-	r.Rule("C02.T1-open-input", "DecryptSegment: Open authenticates the segment parameter, and released bytes derive from Open's result", 2)
-	r.Rule("C02.T1-nonce-binding", "the nonce handed to Open depends on the segment number and on the finality flag", 2)
-	r.Rule("C02.T3-error-surfaces", "processSegments: no clean close and no open return while a non-EOF source error or a processFn error is pending", 4)
-	r.Rule("C02.T4-counter", "processSegments: the segment number handed to processFn is a loop-carried counter that changes every iteration", 1)
-	r.Rule("C02.T4-counter-range", "processSegments: between two segments the counter is checked against a bound so that the number handed to processFn never wraps or is truncated (shared by Encrypt and Decrypt)", 1)
-	r.Rule("C02.T4-final-is-last", "processSegments: after a processFn call with last=true no further segment is processed", 1)
-	r.Rule("C02.T5-first", "processSegments: from the entry, a clean close is not reachable without a processFn call", 1)
-	r.Rule("C02.T5-next", "processSegments: after a processFn call with last=false, a clean close is not reachable without another call", 1)
-	r.Rule("C02.H1-header-read-error-returned", "readHeader: a source-read error not established to be io.EOF is returned (never dropped on a success return)", 1)
-	r.Rule("C02.H2-header-keeps-source", "readHeader: the reader pushed back into *in still contains the source unless the source returned io.EOF", 1)
-	r.Rule("C02.T7-wiring", "Decrypt returns the pipe fed by processSegments(…, fk.DecryptSegment, …)", 2)
+	r.Rule("C02.T1-verify-before-release", "segment decryptor: every use of the output writer is dominated by the err==nil edge of AEAD.Open (or of the helper that calls it)", 1)
+	r.Rule("C02.T1-success-implies-verified", "segment decryptor: every return that may carry a nil error is behind the err==nil edge of AEAD.Open (no exception for short or empty segments)", 1)
+	r.Rule("C02.T1-nonce-injective", "nonce construction: the 32 bits of the segment number reach the nonce injectively, in a window disjoint from the flag byte and not overwritten afterwards (or by appending)", 1)
+	r.Rule("C02.T1-open-failure-returns-error", "segment decryptor: a return reached with the authentication error non-nil returns a non-nil error", 1)
+	r.Rule("C02.T1-open-input", "segment decryptor: Open authenticates the whole segment, and released bytes derive from its result", 2)
+	r.Rule("C02.T1-nonce-binding", "the nonce handed to Open depends on the segment number and on the finality flag (at the Open site and where the nonce is built)", 2)
+	r.Rule("C02.T3-error-surfaces", "segment loop: no clean close and no open return while a non-EOF source error or a processor error is pending", 4)
+	r.Rule("C02.T4-counter", "segment loop: the segment number handed to the processor is a loop-carried counter that changes every iteration", 1)
+	r.Rule("C02.T4-counter-range", "segment loop: between two segments the counter is checked against a bound so that the number handed to the processor never wraps or is truncated (shared by Encrypt and Decrypt)", 1)
+	r.Rule("C02.T4-final-is-last", "segment loop: after a processor call with last=true no further segment is processed", 1)
+	r.Rule("C02.T5-first", "segment loop: from the entry, a clean close is not reachable without a processor call", 1)
+	r.Rule("C02.T5-next", "segment loop: after a processor call with last=false, a clean close is not reachable without another call", 1)
+	r.Rule("C02.H1-header-read-error-returned", "header reader: a source-read error not established to be io.EOF is returned (never dropped on a success return)", 1)
+	r.Rule("C02.H2-header-keeps-source", "header reader: the reader handed on still contains the source unless the source returned io.EOF", 1)
+	r.Rule("C02.T7-wiring", "Decrypt returns the pipe fed by the segment loop, whose processor (on the way from Decrypt) authenticates", 2)
 
-	dec := p.Func(c02Pkg, "fileKey.DecryptSegment")
-	ps := p.Func(c02Pkg, "processSegments")
+	// The exported entry point is the only name the check relies on; everything
+	// else is found by role (see c02_roles.go).
 	decrypt := p.Func(c02Pkg, "Decrypt")
-
-	c02CheckDecryptSegment(p, r, dec)
-	c02CheckProcessSegments(p, r, ps)
-	c02CheckWiring(p, r, decrypt, ps, dec)
-	c02CheckReadHeader(p, r, p.Func(c02Pkg, "readHeader"))
+	roles := c02ResolveRoles(p, decrypt)
+	if len(roles.procs) == 0 {
+		undecided("no function with the segment-processor signature func(io.Writer, []byte, uint32, bool) error is reachable from Decrypt: the decrypt data path is not recognised")
+	}
+	if len(roles.loops) == 0 {
+		undecided("no function reachable from Decrypt hands segments to a segment processor while holding the *io.PipeWriter: the segment loop is not recognised")
+	}
+	if len(roles.headers) == 0 {
+		undecided("no function reachable from Decrypt (outside the segment loop) reads from the reader it was given: the header reader is not recognised")
+	}
+	c02Labels = map[*ssa.Function]string{}
+	c02LabelProg = p
+	c02Label(p, roles.procs, c02Pkg, "segment decryptor")
+	c02Label(p, roles.loops, c02Pkg, "segment loop")
+	c02Label(p, roles.headers, c02Pkg, "header reader")
+	defer func() { c02Labels = map[*ssa.Function]string{}; c02LabelProg = nil }()
+	for _, f := range roles.procs {
+		c02CheckDecryptSegment(p, r, f)
+	}
+	for _, f := range roles.loops {
+		c02CheckProcessSegments(p, r, f)
+	}
+	c02CheckWiring(p, r, roles)
+	for _, f := range roles.headers {
+		c02CheckReadHeader(p, r, f)
+	}
 	c02Notes(p, r, decrypt)
 
 	c.Fixture("c02seg", func(fp *Prog, fr *Report) {
@@ -97,76 +119,186 @@ func c02IsIOWriter(t types.Type) bool {
 	return ok && n.Obj().Pkg() != nil && n.Obj().Pkg().Path() == "io" && n.Obj().Name() == "Writer"
 }
 
+// c02SegCtx: one function on the decrypt side of a segment, with the values
+// that play the roles of the processor's parameters in it. A helper that the
+// segment decryptor delegates to gets a child context (roles mapped through
+// the call's arguments).
+type c02SegCtx struct {
+	fn                   *ssa.Function
+	out, data, num, last ssa.Value
+	parent               *c02SegCtx
+	call                 *ssa.Call // the call in parent.fn that enters fn
+	depth                int
+}
+
+// c02HasOpen: fn (or a same-package function it calls, up to a few levels)
+// calls cipher.AEAD.Open.
+func c02HasOpen(p *Prog, fn *ssa.Function, depth int, seen map[*ssa.Function]bool) bool {
+	if fn == nil || seen[fn] || depth > 3 {
+		return false
+	}
+	seen[fn] = true
+	found := false
+	allInstrs(fn, func(in ssa.Instruction) {
+		ci, ok := in.(ssa.CallInstruction)
+		if !ok || found {
+			return
+		}
+		if callIs(ci, "crypto/cipher", "AEAD", "Open") {
+			found = true
+			return
+		}
+		if h := staticCallee(ci); h != nil && p.InModule(h) && c02HasOpen(p, h, depth+1, seen) {
+			found = true
+		}
+	})
+	return found
+}
+
+// c02WholeSlice: v is base itself, or base re-sliced without bounds.
+func c02WholeSlice(v, base ssa.Value) bool {
+	for i := 0; i < 4; i++ {
+		if v == base {
+			return true
+		}
+		sl, ok := v.(*ssa.Slice)
+		if !ok || sl.Low != nil || sl.High != nil || sl.Max != nil {
+			return false
+		}
+		v = sl.X
+	}
+	return v == base
+}
+
 func c02CheckDecryptSegment(p *Prog, r *Report, fn *ssa.Function) {
-	name := FuncName(p, fn)
-	// parameters by type: out io.Writer, data []byte, num uint32, last bool
-	var out, data, num, last *ssa.Parameter
+	name := c02Name(p, fn)
+	// roles of the parameters by type: out io.Writer, data []byte, num uint32, last bool
+	ctx := &c02SegCtx{fn: fn}
 	for _, pa := range fn.Params {
 		t := pa.Type()
 		switch {
-		case c02IsIOWriter(t) && out == nil:
-			out = pa
-		case c02IsByteSlice(t) && data == nil:
-			data = pa
-		case c02IsBasicKind(t, types.Uint32) && num == nil:
-			num = pa
-		case c02IsBool(t) && last == nil:
-			last = pa
+		case c02IsIOWriter(t) && ctx.out == nil:
+			ctx.out = pa
+		case c02IsByteSlice(t) && ctx.data == nil:
+			ctx.data = pa
+		case c02IsBasicKind(t, types.Uint32) && ctx.num == nil:
+			ctx.num = pa
+		case c02IsBool(t) && ctx.last == nil:
+			ctx.last = pa
 		}
 	}
-	if out == nil || data == nil || num == nil || last == nil {
+	if ctx.out == nil || ctx.data == nil || ctx.num == nil || ctx.last == nil {
 		undecided("%s no longer has the (io.Writer, []byte, uint32, bool) parameters of a segment processor", name)
 	}
-	numIdx, lastIdx := c02ParamIndex(fn, num), c02ParamIndex(fn, last)
+	c02CheckSegFn(p, r, ctx, name)
+}
 
-	var opens []*ssa.Call
+// c02SegEvent: an authentication event in a function: a direct AEAD.Open
+// call, or a call of a same-package helper that authenticates (judged
+// recursively: its nil error implies a successful Open).
+type c02SegEvent struct {
+	call   *ssa.Call
+	err    ssa.Value
+	res    ssa.Value // the plaintext result, if any
+	direct bool
+	sub    *c02SegCtx
+}
+
+func c02CheckSegFn(p *Prog, r *Report, ctx *c02SegCtx, rootName string) {
+	fn := ctx.fn
+	name := c02Name(p, fn)
+	errT := types.Universe.Lookup("error").Type()
+	var events []c02SegEvent
 	allInstrs(fn, func(in ssa.Instruction) {
-		if call, ok := in.(*ssa.Call); ok && callIs(call, "crypto/cipher", "AEAD", "Open") {
-			opens = append(opens, call)
-		}
-	})
-	if len(opens) == 0 {
-		// authentication moved into a helper? then the rules cannot follow it (undecided, not a violation)
-		allInstrs(fn, func(in ssa.Instruction) {
-			ci, ok := in.(ssa.CallInstruction)
-			if !ok {
-				return
-			}
-			h := staticCallee(ci)
-			if h == nil || !p.InModule(h) {
-				return
-			}
-			allInstrs(h, func(j ssa.Instruction) {
-				if call, ok := j.(*ssa.Call); ok && callIs(call, "crypto/cipher", "AEAD", "Open") {
-					undecided("%s authenticates the segment inside the helper %s; the verify-before-release rules cannot follow it", name, FuncName(p, h))
-				}
-			})
-		})
-		r.Violation("C02.T1-verify-before-release", name+" AEAD.Open", p.Pos(fn.Pos()),
-			"the segment decryptor no longer calls cipher.AEAD.Open: segments are released without authentication (any bit flip, reorder or truncation decrypts silently)")
-		return
-	}
-	var openErrs, openRes []ssa.Value
-	for _, o := range opens {
-		e := callResult(o, 1)
-		if e == nil {
-			r.Violation("C02.T1-verify-before-release", name+" AEAD.Open", p.Pos(o.Pos()),
-				"the error result of AEAD.Open is never extracted (discarded): a segment that fails authentication is treated as valid")
+		call, ok := in.(*ssa.Call)
+		if !ok {
 			return
 		}
-		if c02StoredToMemory(e) {
-			undecided("%s keeps Open's error in a memory cell; the dominance rules cannot follow it", name)
+		if callIs(call, "crypto/cipher", "AEAD", "Open") {
+			events = append(events, c02SegEvent{call: call, err: callResult(call, 1), res: callResult(call, 0), direct: true})
+			return
 		}
-		openErrs = append(openErrs, e)
-		if d := callResult(o, 0); d != nil {
-			openRes = append(openRes, d)
+		h := staticCallee(call)
+		if h == nil || !p.InModule(h) || len(h.Blocks) == 0 || call.Call.IsInvoke() {
+			return
+		}
+		if !c02HasOpen(p, h, 0, map[*ssa.Function]bool{}) {
+			return
+		}
+		// an authenticating helper
+		sig := call.Call.Signature()
+		n := sig.Results().Len()
+		if n == 0 || !types.Identical(sig.Results().At(n-1).Type(), errT) {
+			undecided("%s authenticates the segment inside %s, which does not return an error last; whether authentication succeeded cannot be followed", name, FuncName(p, h))
+		}
+		if ctx.depth >= 3 {
+			undecided("%s: authentication is nested more than three helpers deep (%s); not followed", name, FuncName(p, h))
+		}
+		c02LabelHelper(p, h, "authenticating helper")
+		sub := &c02SegCtx{fn: h, parent: ctx, call: call, depth: ctx.depth + 1}
+		for j, a := range call.Call.Args {
+			if j >= len(h.Params) {
+				break
+			}
+			switch {
+			case ctx.data != nil && c02SliceBase(a) == ctx.data && c02IsByteSlice(a.Type()):
+				if !c02WholeSlice(a, ctx.data) {
+					r.Violation("C02.T1-open-input", name+" segment handed to "+c02Name(p, h), p.Pos(call.Pos()),
+						"only a part of the segment is handed to the helper that authenticates it: the bytes that are released are not the bytes that were authenticated")
+				}
+				sub.data = h.Params[j]
+			case ctx.num != nil && a == ctx.num:
+				sub.num = h.Params[j]
+			case ctx.last != nil && a == ctx.last:
+				sub.last = h.Params[j]
+			case ctx.out != nil && a == ctx.out:
+				sub.out = h.Params[j]
+			}
+		}
+		ev := c02SegEvent{call: call, err: callResult(call, n-1), sub: sub}
+		for i := 0; i < n-1; i++ {
+			if c02IsByteSlice(sig.Results().At(i).Type()) {
+				ev.res = callResult(call, i)
+				break
+			}
+		}
+		events = append(events, ev)
+	})
+	if len(events) == 0 {
+		r.Violation("C02.T1-verify-before-release", name+" AEAD.Open", p.Pos(fn.Pos()),
+			"the segment decryptor calls cipher.AEAD.Open neither itself nor through a same-package function: segments are released without authentication (any bit flip, reorder or truncation decrypts silently)")
+		return
+	}
+	var opens []*ssa.Call
+	var openErrs, openRes []ssa.Value
+	for _, ev := range events {
+		if ev.err == nil {
+			r.Violation("C02.T1-verify-before-release", name+" AEAD.Open", p.Pos(ev.call.Pos()),
+				"the error result of the authentication (AEAD.Open, or the helper that calls it) is never extracted (discarded): a segment that fails authentication is treated as valid")
+			return
+		}
+		if c02StoredToMemory(ev.err) {
+			undecided("%s keeps the authentication error in a memory cell; the dominance rules cannot follow it", name)
+		}
+		opens = append(opens, ev.call)
+		openErrs = append(openErrs, ev.err)
+		openRes = append(openRes, ev.res)
+	}
+	// helpers first (their own obligations)
+	for _, ev := range events {
+		if ev.sub != nil {
+			before := c02CountViolations(r)
+			c02CheckSegFn(p, r, ev.sub, rootName)
+			if c02CountViolations(r) > before {
+				r.Violation("C02.T1-verify-before-release", name+" delegated authentication", p.Pos(ev.call.Pos()),
+					"the helper this function relies on to authenticate the segment does not satisfy the rules itself (see the violation reported for it): its nil error does not mean that AEAD.Open succeeded on the segment with a position- and finality-bound nonce")
+			}
 		}
 	}
 
-	// verified(b): block b is dominated by an Open call and by the nil edge of a value carrying its error.
+	// verified(b): block b is dominated by an authentication event and by the nil edge of a value carrying its error.
 	verified := func(b *ssa.BasicBlock, idx int) bool {
 		for oi, o := range opens {
-			// Open itself must dominate
 			if o.Block() == b {
 				if instrIndex(o) >= idx {
 					continue
@@ -179,7 +311,7 @@ func c02CheckDecryptSegment(p *Prog, r *Report, fn *ssa.Function) {
 					continue
 				}
 				if v, isNil, ok := c02NilTest(s.Preds[0], s); ok && isNil && c02Carries(v, openErrs[oi]) {
-					// the test must come after the Open
+					// the test must come after the event
 					if ifi := s.Preds[0].Instrs[len(s.Preds[0].Instrs)-1]; instrDominates(o, ifi) {
 						return true
 					}
@@ -190,79 +322,99 @@ func c02CheckDecryptSegment(p *Prog, r *Report, fn *ssa.Function) {
 	}
 
 	// every use of out
-	nUses := 0
-	for _, rr := range refs(out) {
-		if _, ok := rr.(*ssa.DebugRef); ok {
+	if ctx.out != nil {
+		nUses := 0
+		for _, rr := range refs(ctx.out) {
+			if _, ok := rr.(*ssa.DebugRef); ok {
+				continue
+			}
+			// handing the writer to the authenticating helper is not a release: the helper is judged itself
+			isEvent := false
+			for _, ev := range events {
+				if ssa.Instruction(ev.call) == rr && ev.sub != nil {
+					isEvent = true
+				}
+			}
+			if isEvent {
+				continue
+			}
+			nUses++
+			what := "use of the output writer"
+			if call, ok := rr.(*ssa.Call); ok && call.Call.IsInvoke() && call.Call.Value == ctx.out {
+				what = "out." + call.Call.Method.Name()
+			}
+			construct := fmt.Sprintf("%s %s", name, what)
+			r.Check(verified(rr.Block(), instrIndex(rr)), "C02.T1-verify-before-release", construct, p.Pos(instrPos(rr)),
+				"reached only after the segment was authenticated (AEAD.Open returned a nil error)",
+				"the output writer is used on a path on which AEAD.Open has not (yet) succeeded: bytes of an unauthenticated segment reach the reader (a flipped bit or a spliced segment is released before — or without — the error)")
+			if call, ok := rr.(*ssa.Call); ok && call.Call.IsInvoke() && call.Call.Value == ctx.out && call.Call.Method.Name() == "Write" && len(call.Call.Args) == 1 {
+				base := c02SliceBase(call.Call.Args[0])
+				okDep := false
+				for oi, o := range opens {
+					if openRes[oi] != nil && c02Carries(base, openRes[oi]) {
+						okDep = true
+					}
+					// in-place decryption: dst of Open shares its base with the written slice
+					if events[oi].direct && len(o.Call.Args) >= 1 && c02SliceBase(o.Call.Args[0]) == base {
+						okDep = true
+					}
+				}
+				if okDep {
+					r.OK("C02.T1-open-input", name+" out.Write argument", p.Pos(instrPos(rr)), "written bytes derive from the authenticated plaintext (Open's result or its in-place destination)")
+				} else {
+					r.Note("C02 T1: %s writes a buffer that is not visibly derived from AEAD.Open's result at %s (not decided)", name, p.Pos(instrPos(rr)))
+				}
+			}
+		}
+		if nUses == 0 && ctx.parent == nil {
+			used := false
+			for _, ev := range events {
+				if ev.sub != nil && ev.sub.out != nil {
+					used = true
+				}
+			}
+			if !used {
+				r.Note("C02 T1: %s never uses its output writer (nothing is released)", name)
+			}
+		}
+	}
+
+	// Open authenticates the data; the nonce is bound to number and finality
+	for _, ev := range events {
+		if !ev.direct {
 			continue
 		}
-		nUses++
-		what := "use of the output writer"
-		if call, ok := rr.(*ssa.Call); ok && call.Call.IsInvoke() && call.Call.Value == out {
-			what = "out." + call.Call.Method.Name()
-		}
-		construct := fmt.Sprintf("%s %s", name, what)
-		r.Check(verified(rr.Block(), instrIndex(rr)), "C02.T1-verify-before-release", construct, p.Pos(instrPos(rr)),
-			"reached only after AEAD.Open returned a nil error",
-			"the output writer is used on a path on which AEAD.Open has not (yet) succeeded: bytes of an unauthenticated segment reach the reader (a flipped bit or a spliced segment is released before — or without — the error)")
-		if call, ok := rr.(*ssa.Call); ok && call.Call.IsInvoke() && call.Call.Value == out && call.Call.Method.Name() == "Write" && len(call.Call.Args) == 1 {
-			base := c02SliceBase(call.Call.Args[0])
-			okDep := false
-			for oi, o := range opens {
-				if oi < len(openRes) && c02Carries(base, openRes[oi]) {
-					okDep = true
-				}
-				// in-place decryption: dst of Open shares its base with the written slice
-				if len(o.Call.Args) >= 1 && c02SliceBase(o.Call.Args[0]) == base {
-					okDep = true
-				}
-			}
-			if okDep {
-				r.OK("C02.T1-open-input", name+" out.Write argument", p.Pos(instrPos(rr)), "written bytes derive from Open's result (or from its in-place destination)")
-			} else {
-				r.Note("C02 T1: %s writes a buffer that is not visibly derived from AEAD.Open's result at %s (not decided)", name, p.Pos(instrPos(rr)))
-			}
-		}
-	}
-	if nUses == 0 {
-		r.Note("C02 T1: %s never uses its output writer (nothing is released)", name)
-	}
-
-	// Open authenticates the data parameter
-	for _, o := range opens {
+		o := ev.call
 		args := o.Call.Args
-		okIn := len(args) >= 3 && c02SliceBase(args[2]) == ssa.Value(data)
-		if okIn {
-			if sl, isSl := args[2].(*ssa.Slice); isSl && (sl.Low != nil || sl.High != nil) {
-				okIn = false // only part of the segment would be authenticated
-			}
+		if ctx.data == nil {
+			r.Undecide("%s: the segment does not reach %s as a plain parameter; whether Open authenticates the whole segment cannot be followed", rootName, name)
+		} else {
+			okIn := len(args) >= 3 && c02WholeSlice(args[2], ctx.data)
+			r.Check(okIn, "C02.T1-open-input", name+" AEAD.Open ciphertext", p.Pos(o.Pos()),
+				"Open is given the whole segment parameter",
+				"AEAD.Open is not given the (whole) segment it was handed: the bytes that are released are not the bytes that were authenticated")
 		}
-		r.Check(okIn, "C02.T1-open-input", name+" AEAD.Open ciphertext", p.Pos(o.Pos()),
-			"Open is given the whole segment parameter",
-			"AEAD.Open is not given the (whole) segment it was handed: the bytes that are released are not the bytes that were authenticated")
-		// nonce
 		if len(args) >= 2 {
-			deps := c02ValueDeps(p, args[1], 3)
-			var missing []string
-			if !deps[numIdx] {
-				missing = append(missing, "the segment number (segments can be reordered, duplicated or dropped from the middle)")
-			}
-			if !deps[lastIdx] {
-				missing = append(missing, "the finality flag (a document truncated at a segment boundary ends in a clean EOF)")
-			}
-			r.Check(len(missing) == 0, "C02.T1-nonce-binding", name+" AEAD.Open nonce", p.Pos(o.Pos()),
-				"the nonce depends on the segment number and the finality flag",
-				"the nonce handed to AEAD.Open does not depend on "+strings.Join(missing, " nor on "))
-			// the nonce builder itself, if it is a module function
-			if call, ok := args[1].(*ssa.Call); ok {
-				if callee := staticCallee(call); callee != nil && p.InModule(callee) && len(callee.Blocks) > 0 {
-					c02CheckNonceBuilder(p, r, callee)
-					c02NonceLayout(p, r, name, callee)
+			hasNum, hasLast, known := c02DepsRoles(p, ctx, args[1], 0)
+			if !known {
+				r.Undecide("%s: the segment number / finality flag do not reach %s as plain parameters; the nonce binding cannot be followed", rootName, name)
+			} else {
+				var missing []string
+				if !hasNum {
+					missing = append(missing, "the segment number (segments can be reordered, duplicated or dropped from the middle)")
 				}
+				if !hasLast {
+					missing = append(missing, "the finality flag (a document truncated at a segment boundary ends in a clean EOF)")
+				}
+				r.Check(len(missing) == 0, "C02.T1-nonce-binding", name+" AEAD.Open nonce", p.Pos(o.Pos()),
+					"the nonce depends on the segment number and the finality flag",
+					"the nonce handed to AEAD.Open does not depend on "+strings.Join(missing, " nor on "))
 			}
+			c02TraceNonce(p, r, rootName, ctx, args[1], 0)
 		}
 	}
 
-	// failure returns: may-flow of "a value carrying Open's error was found non-nil"
+	// failure returns: may-flow of "a value carrying the authentication error was found non-nil"
 	const failed = 1
 	nEdges := 0
 	ff := &FlagFlow{Fn: fn, Must: false,
@@ -282,7 +434,7 @@ func c02CheckDecryptSegment(p *Prog, r *Report, fn *ssa.Function) {
 			return
 		}
 		nRet++
-		res := ret.Results[len(ret.Results)-1]
+		res := c02Ret(ret, len(ret.Results)-1)
 		if isNilConst(res) {
 			bad = p.Pos(ret.Pos())
 			return
@@ -300,7 +452,16 @@ func c02CheckDecryptSegment(p *Prog, r *Report, fn *ssa.Function) {
 		}
 	})
 	c02SuccessImpliesVerified(p, r, fn, name, opens, openErrs)
+	// a function that simply returns the helper's error (return k.open(...)) has no test of its own: the returned value carries the error
+	direct := false
+	allInstrs(fn, func(in ssa.Instruction) {
+		if ret, ok := in.(*ssa.Return); ok && len(ret.Results) > 0 && c02CarriesAny(c02Ret(ret, len(ret.Results)-1), openErrs) {
+			direct = true
+		}
+	})
 	switch {
+	case nEdges == 0 && direct:
+		r.OK("C02.T1-open-failure-returns-error", name+" return after failed Open", p.Pos(fn.Pos()), "the authentication error itself is returned")
 	case nEdges == 0:
 		r.Violation("C02.T1-open-failure-returns-error", name+" return after failed Open", p.Pos(fn.Pos()),
 			"the error of AEAD.Open is never tested against nil: no path of the function is specific to a failed authentication")
@@ -308,6 +469,167 @@ func c02CheckDecryptSegment(p *Prog, r *Report, fn *ssa.Function) {
 		r.Check(bad == "" && nRet > 0, "C02.T1-open-failure-returns-error", name+" return after failed Open", p.Pos(fn.Pos()),
 			"every return reachable after Open failed returns an error",
 			"the path on which AEAD.Open failed returns a nil error (at "+bad+"): the caller goes on to the next segment and the stream can end in a clean EOF although a segment was rejected")
+	}
+}
+
+// c02DepsRoles: does value v (in ctx.fn) depend on the segment number / the
+// finality flag? Dependences on other parameters of a helper are followed to
+// the caller's arguments. known=false if a role never reaches this chain.
+func c02DepsRoles(p *Prog, ctx *c02SegCtx, v ssa.Value, depth int) (hasNum, hasLast, known bool) {
+	if depth > 4 {
+		return false, false, false
+	}
+	known = true
+	deps := c02ValueDeps(p, v, 3)
+	for i := range deps {
+		if i >= len(ctx.fn.Params) {
+			continue
+		}
+		pa := ssa.Value(ctx.fn.Params[i])
+		switch {
+		case pa == ctx.num:
+			hasNum = true
+		case pa == ctx.last:
+			hasLast = true
+		default:
+			if ctx.parent != nil && ctx.call != nil && i < len(ctx.call.Call.Args) {
+				n, l, k := c02DepsRoles(p, ctx.parent, ctx.call.Call.Args[i], depth+1)
+				hasNum = hasNum || n
+				hasLast = hasLast || l
+				known = known && k
+			}
+		}
+	}
+	if ctx.parent == nil && (ctx.num == nil || ctx.last == nil) {
+		known = false
+	}
+	return
+}
+
+// c02TraceNonce follows the nonce value to the place where its buffer is
+// built — in the same function, in a (tuple-returning) helper, in a helper of
+// a helper, or in the caller when the nonce arrives as a parameter — and
+// applies the dependence and layout rules there.
+func c02TraceNonce(p *Prog, r *Report, rootName string, ctx *c02SegCtx, v ssa.Value, depth int) {
+	if depth > 6 {
+		r.Undecide("%s: the nonce is passed through more than six functions; its construction is not followed", rootName)
+		return
+	}
+	fn := ctx.fn
+	base := c02SliceBase(v)
+	if c02IsAppendChain(base) {
+		num, _ := ctx.num.(*ssa.Parameter)
+		last, _ := ctx.last.(*ssa.Parameter)
+		c02LabelHelper(p, fn, "nonce builder")
+		if num != nil && last != nil {
+			deps := c02ValueDeps(p, base, 2)
+			// which appended tail is returned may itself be the dependence (return append(n, 1) / return append(n, 0))
+			if in, ok := base.(ssa.Instruction); ok {
+				for _, dc := range domConds(in.Block()) {
+					for i := range c02ValueDeps(p, dc.If.Cond, 2) {
+						deps[i] = true
+					}
+				}
+			}
+			name := c02Name(p, fn)
+			var missing []string
+			if !deps[c02ParamIndex(fn, num)] {
+				missing = append(missing, "the segment number "+num.Name()+" (segments become interchangeable)")
+			}
+			if !deps[c02ParamIndex(fn, last)] {
+				missing = append(missing, "the finality flag "+last.Name()+" (final and non-final segments get the same nonce: truncation at a segment boundary is not detected)")
+			}
+			r.Check(len(missing) == 0, "C02.T1-nonce-binding", name+" nonce buffer", p.Pos(fn.Pos()),
+				"the bytes of the nonce depend on the segment number and the finality flag",
+				"the bytes of the nonce built in "+name+" do not depend on "+strings.Join(missing, " nor on "))
+		}
+		c02NonceAppendLayout(p, r, rootName, fn, base, num, last)
+		return
+	}
+	switch x := base.(type) {
+	case *ssa.Alloc, *ssa.MakeSlice:
+		num, _ := ctx.num.(*ssa.Parameter)
+		last, _ := ctx.last.(*ssa.Parameter)
+		c02LabelHelper(p, fn, "nonce builder")
+		name := c02Name(p, fn)
+		if num != nil && last != nil {
+			deps := c02ValueDeps(p, base, 2)
+			var missing []string
+			if !deps[c02ParamIndex(fn, num)] {
+				missing = append(missing, "the segment number "+num.Name()+" (segments become interchangeable)")
+			}
+			if !deps[c02ParamIndex(fn, last)] {
+				missing = append(missing, "the finality flag "+last.Name()+" (final and non-final segments get the same nonce: truncation at a segment boundary is not detected)")
+			}
+			r.Check(len(missing) == 0, "C02.T1-nonce-binding", name+" nonce buffer", p.Pos(fn.Pos()),
+				"the bytes of the nonce depend on the segment number and the finality flag",
+				"the bytes of the nonce built in "+name+" do not depend on "+strings.Join(missing, " nor on "))
+		}
+		c02NonceLayout(p, r, rootName, fn, base, num, last)
+	case *ssa.Parameter:
+		if ctx.parent == nil || ctx.call == nil {
+			r.Undecide("%s: the nonce is a parameter of %s; its construction cannot be followed", rootName, FuncName(p, fn))
+			return
+		}
+		i := c02ParamIndex(fn, x)
+		if i < 0 || i >= len(ctx.call.Call.Args) {
+			r.Undecide("%s: cannot map the nonce parameter of %s to an argument", rootName, FuncName(p, fn))
+			return
+		}
+		c02TraceNonce(p, r, rootName, ctx.parent, ctx.call.Call.Args[i], depth+1)
+	case *ssa.Phi:
+		for _, e := range x.Edges {
+			if e != ssa.Value(x) {
+				c02TraceNonce(p, r, rootName, ctx, e, depth+1)
+			}
+		}
+	case *ssa.Extract, *ssa.Call:
+		idx := 0
+		var call *ssa.Call
+		if ex, ok := x.(*ssa.Extract); ok {
+			idx = ex.Index
+			call, _ = ex.Tuple.(*ssa.Call)
+		} else {
+			call = x.(*ssa.Call)
+		}
+		if call == nil {
+			r.Undecide("%s: the nonce in %s comes out of a tuple that is not a call result; not followed", rootName, FuncName(p, fn))
+			return
+		}
+		g := staticCallee(call)
+		if g == nil || !p.InModule(g) || len(g.Blocks) == 0 {
+			r.Undecide("%s: the nonce in %s is produced by %s, whose body cannot be followed", rootName, FuncName(p, fn), call.Call.Value.Name())
+			return
+		}
+		sub := &c02SegCtx{fn: g, parent: ctx, call: call, depth: ctx.depth + 1}
+		for j, a := range call.Call.Args {
+			if j >= len(g.Params) {
+				break
+			}
+			switch {
+			case ctx.num != nil && a == ctx.num:
+				sub.num = g.Params[j]
+			case ctx.last != nil && a == ctx.last:
+				sub.last = g.Params[j]
+			}
+		}
+		n := 0
+		allInstrs(g, func(in ssa.Instruction) {
+			ret, ok := in.(*ssa.Return)
+			if !ok || idx >= len(ret.Results) || (len(ret.Block().Preds) == 0 && ret.Block().Index != 0) {
+				return
+			}
+			if isNilConst(c02Ret(ret, idx)) {
+				return // error paths return no nonce
+			}
+			n++
+			c02TraceNonce(p, r, rootName, sub, c02Ret(ret, idx), depth+1)
+		})
+		if n == 0 {
+			r.Undecide("%s: %s never returns a nonce; not followed", rootName, FuncName(p, g))
+		}
+	default:
+		r.Undecide("%s: the nonce handed to AEAD.Open in %s is neither built in a local buffer nor obtained from a same-package function (%T); its layout cannot be classified", rootName, FuncName(p, fn), base)
 	}
 }
 
@@ -368,6 +690,10 @@ func c02SuccessImpliesVerified(p *Prog, r *Report, fn *ssa.Function, name string
 		if nonNilAt(e, b, to) {
 			return
 		}
+		// the authentication error itself is returned: nil exactly when the segment was authenticated
+		if _, isPhi := e.(*ssa.Phi); !isPhi && c02CarriesAny(e, openErrs) {
+			return
+		}
 		if phi, ok := e.(*ssa.Phi); ok && depth < 4 {
 			for i, inc := range phi.Edges {
 				pred := phi.Block().Preds[i]
@@ -386,7 +712,7 @@ func c02SuccessImpliesVerified(p *Prog, r *Report, fn *ssa.Function, name string
 			return
 		}
 		nRet++
-		judge(ret.Results[len(ret.Results)-1], ret.Block(), nil, st&ver != 0, p.Pos(ret.Pos()), 0)
+		judge(c02Ret(ret, len(ret.Results)-1), ret.Block(), nil, st&ver != 0, p.Pos(ret.Pos()), 0)
 	})
 	construct := name + " success only after Open"
 	switch {
@@ -399,35 +725,6 @@ func c02SuccessImpliesVerified(p *Prog, r *Report, fn *ssa.Function, name string
 		r.Check(nRet > 0, "C02.T1-success-implies-verified", construct, p.Pos(fn.Pos()),
 			"every return that can report success is behind the err==nil edge of AEAD.Open", "the function has no return")
 	}
-}
-
-// c02CheckNonceBuilder: the bytes returned by the nonce builder depend on its
-// uint32 and on its bool parameter.
-func c02CheckNonceBuilder(p *Prog, r *Report, fn *ssa.Function) {
-	name := FuncName(p, fn)
-	deps := c02ReturnDeps(p, fn, 2)
-	var missing []string
-	nU, nB := 0, 0
-	for i, pa := range fn.Params {
-		switch {
-		case c02IsBasicKind(pa.Type(), types.Uint32):
-			nU++
-			if !deps[i] {
-				missing = append(missing, "its segment-number parameter "+pa.Name()+" (segments become interchangeable)")
-			}
-		case c02IsBool(pa.Type()):
-			nB++
-			if !deps[i] {
-				missing = append(missing, "its finality parameter "+pa.Name()+" (final and non-final segments get the same nonce: truncation at a segment boundary is not detected)")
-			}
-		}
-	}
-	if nU == 0 || nB == 0 {
-		return
-	}
-	r.Check(len(missing) == 0, "C02.T1-nonce-binding", name+" result", p.Pos(fn.Pos()),
-		"the returned nonce depends on the segment number and the finality flag",
-		"the bytes of the returned nonce do not depend on "+strings.Join(missing, " nor on "))
 }
 
 func c02IsByteSlice(t types.Type) bool {
@@ -459,20 +756,23 @@ type c02Loop struct {
 	p         *Prog
 	fn        *ssa.Function
 	name      string
-	in        *ssa.Parameter // source reader
-	out       *ssa.Parameter // *io.PipeWriter
-	procFn    *ssa.Parameter
-	reads     []*ssa.Call // calls reading from the source
+	reads     []*ssa.Call // calls reading from the source (Read / ReadFull / ReadAtLeast / same-package read helpers)
 	readErrs  []ssa.Value
 	readFull  bool        // some read goes through io.ReadFull/ReadAtLeast (only used to word the diagnostics)
-	calls     []*ssa.Call // processFn calls
+	calls     []*ssa.Call // segment-processor calls
 	callErrs  []ssa.Value
-	closes    []*ssa.Call // Close / CloseWithError on out (incl. deferred, see deferCloses)
+	closes    []ssa.Instruction // Close / CloseWithError on the pipe, calls of helpers that close it, and — for a loop that reports to its caller instead of closing — its returns
+	retErr    bool              // the function never closes the pipe itself: it returns an error and its caller closes
 	deferred  []*ssa.Defer
-	lastIdx   int // index of the bool parameter in processFn's signature
-	numIdx    int
-	closeKind map[ssa.Instruction]int // 0 clean, 1 error, 2 maybe
+	closeKind map[ssa.Instruction]int       // 0 clean, 1 error, 2 maybe
+	closeArg  map[ssa.Instruction]ssa.Value // the error the pipe is closed with (nil for a clean close / by-construction error)
+	closeName map[ssa.Instruction]string
 }
+
+// numArg / lastArg: the segment number and the finality flag handed to a
+// segment-processor call (the last two arguments of the processor signature).
+func (L *c02Loop) numArg(cl *ssa.Call) ssa.Value  { return cl.Call.Args[len(cl.Call.Args)-2] }
+func (L *c02Loop) lastArg(cl *ssa.Call) ssa.Value { return cl.Call.Args[len(cl.Call.Args)-1] }
 
 const (
 	c02CloseClean = iota
@@ -494,97 +794,189 @@ func c02IsIOReader(t types.Type) bool {
 	return ok && n.Obj().Pkg() != nil && n.Obj().Pkg().Path() == "io" && n.Obj().Name() == "Reader"
 }
 
-func c02CheckProcessSegments(p *Prog, r *Report, fn *ssa.Function) {
-	L := &c02Loop{p: p, fn: fn, name: FuncName(p, fn), closeKind: map[ssa.Instruction]int{}, lastIdx: -1, numIdx: -1}
-	for _, pa := range fn.Params {
-		t := pa.Type()
-		switch {
-		case c02IsIOReader(t) && L.in == nil:
-			L.in = pa
-		case c02IsPipeWriter(t) && L.out == nil:
-			L.out = pa
-		default:
-			if sig, ok := t.Underlying().(*types.Signature); ok && L.procFn == nil {
-				for i := 0; i < sig.Params().Len(); i++ {
-					pt := sig.Params().At(i).Type()
-					if c02IsBool(pt) {
-						L.lastIdx = i
-					}
-					if c02IsBasicKind(pt, types.Uint32) {
-						L.numIdx = i
+// c02GivenReader: v is a reader the function was given — a parameter, a
+// free variable, a field of its receiver/parameter — possibly wrapped
+// (MultiReader…) or merged by phis; as opposed to a reader it made itself
+// from something else (hkdf.New, bytes.NewReader).
+func c02GivenReader(v ssa.Value, depth int) bool {
+	if depth > 5 || v == nil {
+		return false
+	}
+	switch x := v.(type) {
+	case *ssa.Parameter, *ssa.FreeVar:
+		return true
+	case *ssa.MakeInterface:
+		return c02GivenReader(x.X, depth+1)
+	case *ssa.ChangeInterface:
+		return c02GivenReader(x.X, depth+1)
+	case *ssa.Phi:
+		for _, e := range x.Edges {
+			if e != ssa.Value(x) && c02GivenReader(e, depth+1) {
+				return true
+			}
+		}
+	case *ssa.UnOp:
+		if x.Op == token.MUL {
+			switch y := x.X.(type) {
+			case *ssa.FieldAddr, *ssa.Parameter, *ssa.FreeVar:
+				return true
+			case *ssa.Alloc:
+				for _, rr := range refs(y) {
+					if st, ok := rr.(*ssa.Store); ok && st.Addr == ssa.Value(y) && c02GivenReader(st.Val, depth+1) {
+						return true
 					}
 				}
-				if L.lastIdx >= 0 && L.numIdx >= 0 {
-					L.procFn = pa
+			}
+		}
+	case *ssa.Field:
+		return true
+	case *ssa.Call:
+		if callIs(x, "io", "", "MultiReader") || callIs(x, "io", "", "LimitReader") || callIs(x, "io", "", "TeeReader") || callIs(x, "bufio", "", "NewReader") || callIs(x, "bufio", "", "NewReaderSize") {
+			for _, a := range x.Call.Args {
+				if c02GivenReader(a, depth+1) {
+					return true
 				}
 			}
 		}
 	}
-	if L.in == nil || L.out == nil || L.procFn == nil {
-		undecided("%s no longer has the (io.Reader, *io.PipeWriter, segment processor) parameters", L.name)
-	}
-	// closures capturing the pipe or the processor: cannot follow
-	for _, pa := range []*ssa.Parameter{L.out, L.procFn, L.in} {
-		for _, rr := range refs(pa) {
-			switch u := rr.(type) {
-			case *ssa.MakeClosure:
-				undecided("%s: parameter %s is captured by a closure; the path rules cannot follow it", L.name, pa.Name())
-			case *ssa.Store:
-				if u.Val == ssa.Value(pa) {
-					undecided("%s: parameter %s is stored to memory (captured); the path rules cannot follow it", L.name, pa.Name())
-				}
-			}
-		}
-	}
+	return false
+}
 
-	// classify instructions
+func c02CheckProcessSegments(p *Prog, r *Report, fn *ssa.Function) {
+	L := &c02Loop{p: p, fn: fn, name: c02Name(p, fn), closeKind: map[ssa.Instruction]int{}, closeArg: map[ssa.Instruction]ssa.Value{}, closeName: map[ssa.Instruction]string{}}
+	// Roles are identified by type and data flow, not by parameter position:
+	// the pipe is any *io.PipeWriter value, the source any io.Reader the
+	// function was given, the processor any callee of the processor signature.
+	errT := types.Universe.Lookup("error").Type()
+	var helperFlows []*c02SrcFlowResult
+	type closeHelper struct {
+		call *ssa.Call
+		sum  c02PipeSummary
+	}
+	var closeHelpers []closeHelper
 	allInstrs(fn, func(in ssa.Instruction) {
 		switch x := in.(type) {
 		case *ssa.Call:
 			cc := x.Common()
+			isPipeClose := (callIs(x, "io", "PipeWriter", "Close") || callIs(x, "io", "PipeWriter", "CloseWithError")) && len(cc.Args) > 0 && c02IsPipeWriter(cc.Args[0].Type())
 			switch {
-			case cc.Value == ssa.Value(L.procFn) && !cc.IsInvoke():
+			case c02ProcCall(x):
 				L.calls = append(L.calls, x)
-			case cc.IsInvoke() && cc.Value == ssa.Value(L.in) && cc.Method.Name() == "Read":
+			case cc.IsInvoke() && cc.Method.Name() == "Read" && c02IsIOReader(cc.Value.Type()) && c02GivenReader(cc.Value, 0):
 				L.reads = append(L.reads, x)
-			case (callIs(x, "io", "", "ReadFull") || callIs(x, "io", "", "ReadAtLeast")) && len(cc.Args) > 0 && c02Carries(cc.Args[0], L.in):
+			case (callIs(x, "io", "", "ReadFull") || callIs(x, "io", "", "ReadAtLeast")) && len(cc.Args) > 0 && c02GivenReader(cc.Args[0], 0):
 				L.reads = append(L.reads, x)
 				L.readFull = true
-			case (callIs(x, "io", "PipeWriter", "Close") || callIs(x, "io", "PipeWriter", "CloseWithError")) && len(cc.Args) > 0 && cc.Args[0] == ssa.Value(L.out):
+			case isPipeClose:
 				L.closes = append(L.closes, x)
 			default:
 				// any other call that receives the pipe or the source
+				hasPipe, hasSrc := false, false
 				for _, a := range cc.Args {
-					if a == ssa.Value(L.out) {
-						undecided("%s hands the pipe writer to %s; the close discipline cannot be followed there", L.name, cc.Value.Name())
+					if c02IsPipeWriter(a.Type()) {
+						hasPipe = true
 					}
-					if c02Carries(a, L.in) && !cc.IsInvoke() {
-						undecided("%s hands the source reader to %s; its errors cannot be followed", L.name, cc.Value.Name())
+					if c02IsIOReader(a.Type()) && c02GivenReader(a, 0) && !cc.IsInvoke() {
+						hasSrc = true
+					}
+				}
+				if !hasPipe && !hasSrc {
+					return
+				}
+				h := staticCallee(x)
+				if h == nil || !p.InModule(h) || len(h.Blocks) == 0 {
+					what := "the pipe writer"
+					if hasSrc {
+						what = "the source reader"
+					}
+					undecided("%s hands %s to %s, which is not a same-package function whose body can be followed", L.name, what, cc.Value.Name())
+				}
+				if hasSrc {
+					// a read helper: judged by the same source-error flow, then treated as a read
+					c02LabelHelper(p, h, "read helper")
+					hr := c02SourceFlow(p, h, 1)
+					helperFlows = append(helperFlows, hr)
+					if hr.undecided != "" {
+						undecided("%s", hr.undecided)
+					}
+					L.reads = append(L.reads, x)
+					var scan func(q *c02SrcFlowResult)
+					scan = func(q *c02SrcFlowResult) {
+						allInstrs(q.fn, func(j ssa.Instruction) {
+							if c, ok := j.(*ssa.Call); ok && (callIs(c, "io", "", "ReadFull") || callIs(c, "io", "", "ReadAtLeast")) {
+								L.readFull = true
+							}
+						})
+						for _, sub := range q.helpers {
+							scan(sub)
+						}
+					}
+					scan(hr)
+				}
+				if hasPipe {
+					sum := c02SummarisePipeHelper(p, h, 0)
+					switch sum.kind {
+					case c02PipeNone:
+					case c02PipeUnknown:
+						undecided("%s hands the pipe writer to %s, which closes it on some paths only (or in a way that cannot be summarised); the close discipline cannot be followed there", L.name, FuncName(p, h))
+					default:
+						closeHelpers = append(closeHelpers, closeHelper{x, sum})
 					}
 				}
 			}
 		case *ssa.Defer:
 			cc := x.Common()
-			if (callIs(x, "io", "PipeWriter", "Close") || callIs(x, "io", "PipeWriter", "CloseWithError")) && len(cc.Args) > 0 && cc.Args[0] == ssa.Value(L.out) {
+			if (callIs(x, "io", "PipeWriter", "Close") || callIs(x, "io", "PipeWriter", "CloseWithError")) && len(cc.Args) > 0 && c02IsPipeWriter(cc.Args[0].Type()) {
 				L.deferred = append(L.deferred, x)
+				return
+			}
+			for _, a := range cc.Args {
+				if c02IsPipeWriter(a.Type()) {
+					undecided("%s defers a call that receives the pipe writer (%s); the close discipline cannot be followed there", L.name, cc.Value.Name())
+				}
 			}
 		case *ssa.Go:
 			for _, a := range x.Common().Args {
-				if a == ssa.Value(L.out) {
+				if c02IsPipeWriter(a.Type()) {
 					undecided("%s hands the pipe writer to a goroutine", L.name)
+				}
+			}
+		case *ssa.MakeClosure:
+			for _, b := range x.Bindings {
+				t := b.Type()
+				if pt, ok := t.Underlying().(*types.Pointer); ok {
+					t = pt.Elem()
+				}
+				if c02IsPipeWriter(b.Type()) || c02IsPipeWriter(t) {
+					undecided("%s: the pipe writer is captured by a closure; the close discipline cannot be followed there", L.name)
+				}
+				if types.Identical(t, errT) {
+					undecided("%s: an error variable is captured by a closure; the path rules cannot follow it", L.name)
 				}
 			}
 		}
 	})
+	for _, hr := range helperFlows {
+		before := c02CountViolations(r)
+		c02ReportSourceFlow(p, r, hr, "C02.T3-error-surfaces", "inside a read helper of the segment loop")
+		if c02CountViolations(r) > before {
+			r.Violation("C02.T3-error-surfaces", L.name+" read helper reports source errors", p.Pos(fn.Pos()),
+				"the helper through which the loop reads from the source can return a nil error although the source failed (see the violation reported for it): the loop cannot surface an error it is never told about")
+		}
+	}
 	if len(L.calls) == 0 {
 		r.Violation("C02.T5-first", L.name+" clean close without any segment", p.Pos(fn.Pos()), "the segment processor is never invoked: nothing is authenticated before the stream is closed")
 		return
 	}
 	if len(L.reads) == 0 {
-		undecided("%s: no read from the source reader recognised (io.Reader.Read / io.ReadFull / io.ReadAtLeast)", L.name)
+		undecided("%s: no read from the source reader recognised (io.Reader.Read / io.ReadFull / io.ReadAtLeast / a same-package read helper)", L.name)
 	}
 	for _, rd := range L.reads {
-		e := callResult(rd, 1)
+		n := rd.Call.Signature().Results().Len()
+		var e ssa.Value
+		if n > 0 && types.Identical(rd.Call.Signature().Results().At(n-1).Type(), errT) {
+			e = callResult(rd, n-1)
+		}
 		if e == nil {
 			r.Violation("C02.T3-error-surfaces", L.name+" source error examined", p.Pos(rd.Pos()),
 				"the error result of the read from the source is discarded: a failing source reader is indistinguishable from more data / end of input")
@@ -597,40 +989,191 @@ func c02CheckProcessSegments(p *Prog, r *Report, fn *ssa.Function) {
 	}
 	for _, cl := range L.calls {
 		e := callResult(cl, 0)
-		if cl.Call.Signature().Results().Len() != 1 {
-			undecided("%s: segment processor does not return exactly one error", L.name)
-		}
 		if c02StoredToMemory(e) {
 			undecided("%s keeps the segment processor's error in a memory cell; the path rules cannot follow it", L.name)
 		}
 		L.callErrs = append(L.callErrs, e)
 	}
 	// classify closes
-	classify := func(in ssa.Instruction, cc *ssa.CallCommon) {
-		if cc.StaticCallee() != nil && cc.StaticCallee().Name() == "Close" {
-			L.closeKind[in] = c02CloseClean
-			return
-		}
-		arg := cc.Args[1]
+	classifyArg := func(in ssa.Instruction, arg ssa.Value) {
+		L.closeArg[in] = arg
 		switch {
-		case isNilConst(arg):
+		case arg == nil || isNilConst(arg):
 			L.closeKind[in] = c02CloseClean
-		case c02KnownNonNilAt(in.Block(), arg) || c02CarrierKnownNonNil(in.Block(), arg):
+		case c02KnownNonNilAtP(p, in.Block(), arg):
 			L.closeKind[in] = c02CloseErr
 		default:
 			L.closeKind[in] = c02CloseMaybe
 		}
 	}
+	classify := func(in ssa.Instruction, cc *ssa.CallCommon) {
+		L.closeName[in] = cc.StaticCallee().Name()
+		if cc.StaticCallee().Name() == "Close" {
+			classifyArg(in, nil)
+			return
+		}
+		classifyArg(in, cc.Args[1])
+	}
 	for _, cl := range L.closes {
-		classify(cl, cl.Common())
+		classify(cl, cl.(*ssa.Call).Common())
 	}
 	for _, d := range L.deferred {
 		classify(d, d.Common())
+	}
+	for _, ch := range closeHelpers {
+		L.closes = append(L.closes, ch.call)
+		L.closeName[ch.call] = "close via helper"
+		switch ch.sum.kind {
+		case c02PipeClean:
+			classifyArg(ch.call, nil)
+		case c02PipeErr:
+			L.closeKind[ch.call] = c02CloseErr
+		case c02PipeErrArg:
+			classifyArg(ch.call, ch.call.Call.Args[ch.sum.arg])
+		}
+	}
+
+	// A loop that never closes the pipe itself but returns an error: its returns
+	// are the termination events (nil = clean end, non-nil = failure) and every
+	// caller must turn them into the corresponding close (judged below).
+	res := fn.Signature.Results()
+	if len(L.closes) == 0 && len(L.deferred) == 0 && res.Len() > 0 && types.Identical(res.At(res.Len()-1).Type(), errT) {
+		L.retErr = true
+		allInstrs(fn, func(in ssa.Instruction) {
+			ret, ok := in.(*ssa.Return)
+			if !ok || len(ret.Results) == 0 || (len(ret.Block().Preds) == 0 && ret.Block().Index != 0) {
+				return
+			}
+			L.closes = append(L.closes, ret)
+			L.closeName[ret] = "return"
+			classifyArg(ret, c02Ret(ret, len(ret.Results)-1))
+		})
+		c02CheckLoopCallers(p, r, fn)
 	}
 
 	c02ErrorSurfaces(r, L)
 	c02Counter(r, L)
 	c02Finality(r, L)
+}
+
+// c02CheckLoopCallers: the segment loop fn reports its outcome as an error
+// result; every caller must close the pipe with an error when that result is
+// non-nil and may close it cleanly only when it is nil (the same T3 flow, with
+// the call as the error source).
+func c02CheckLoopCallers(p *Prog, r *Report, loop *ssa.Function) {
+	errT := types.Universe.Lookup("error").Type()
+	nSites := 0
+	for _, w := range p.Funcs {
+		if w == loop || w.Pkg != loop.Pkg && (w.Parent() == nil || c02TopParent(w).Pkg != loop.Pkg) {
+			continue
+		}
+		var sites []ssa.CallInstruction
+		allInstrs(w, func(in ssa.Instruction) {
+			if ci, ok := in.(ssa.CallInstruction); ok && staticCallee(ci) == loop {
+				sites = append(sites, ci)
+			}
+		})
+		if len(sites) == 0 {
+			continue
+		}
+		c02LabelHelper(p, w, "segment loop caller")
+		W := &c02Loop{p: p, fn: w, name: c02Name(p, w), closeKind: map[ssa.Instruction]int{}, closeArg: map[ssa.Instruction]ssa.Value{}, closeName: map[ssa.Instruction]string{}}
+		for _, site := range sites {
+			nSites++
+			call, isCall := site.(*ssa.Call)
+			var e ssa.Value
+			if isCall {
+				e = callResult(call, call.Call.Signature().Results().Len()-1)
+			}
+			if e == nil {
+				r.Violation("C02.T3-error-surfaces", W.name+" outcome of the segment loop", p.Pos(site.Pos()),
+					"the error returned by the segment loop is discarded by its caller (not extracted, or the loop is started with go/defer): a failed segment or a failing source can no longer be turned into an error on the output stream")
+				return
+			}
+			if c02StoredToMemory(e) {
+				undecided("%s keeps the segment loop's error in a memory cell; the path rules cannot follow it", W.name)
+			}
+			W.calls = append(W.calls, call)
+			W.callErrs = append(W.callErrs, e)
+		}
+		classifyArg := func(in ssa.Instruction, arg ssa.Value) {
+			W.closeArg[in] = arg
+			switch {
+			case arg == nil || isNilConst(arg):
+				W.closeKind[in] = c02CloseClean
+			case c02KnownNonNilAtP(p, in.Block(), arg):
+				W.closeKind[in] = c02CloseErr
+			default:
+				W.closeKind[in] = c02CloseMaybe
+			}
+		}
+		allInstrs(w, func(in ssa.Instruction) {
+			ci, ok := in.(ssa.CallInstruction)
+			if !ok {
+				return
+			}
+			cc := ci.Common()
+			isClose := callIs(ci, "io", "PipeWriter", "Close")
+			isCWE := callIs(ci, "io", "PipeWriter", "CloseWithError")
+			if !(isClose || isCWE) || len(cc.Args) == 0 || !c02IsPipeWriter(cc.Args[0].Type()) {
+				// helpers that close
+				if call, isCall := in.(*ssa.Call); isCall && staticCallee(call) != loop {
+					if h := staticCallee(call); h != nil && p.InModule(h) {
+						for _, a := range cc.Args {
+							if !c02IsPipeWriter(a.Type()) {
+								continue
+							}
+							sum := c02SummarisePipeHelper(p, h, 0)
+							switch sum.kind {
+							case c02PipeNone:
+							case c02PipeUnknown:
+								undecided("%s hands the pipe writer to %s, which closes it in a way that cannot be summarised", W.name, FuncName(p, h))
+							case c02PipeClean:
+								W.closes = append(W.closes, call)
+								W.closeName[call] = "close via helper"
+								classifyArg(call, nil)
+							case c02PipeErr:
+								W.closes = append(W.closes, call)
+								W.closeName[call] = "close via helper"
+								W.closeKind[call] = c02CloseErr
+							case c02PipeErrArg:
+								W.closes = append(W.closes, call)
+								W.closeName[call] = "close via helper"
+								classifyArg(call, cc.Args[sum.arg])
+							}
+						}
+					}
+				}
+				return
+			}
+			var arg ssa.Value
+			if isCWE {
+				arg = cc.Args[1]
+			}
+			switch x := in.(type) {
+			case *ssa.Call:
+				W.closes = append(W.closes, x)
+				W.closeName[x] = cc.StaticCallee().Name()
+				classifyArg(x, arg)
+			case *ssa.Defer:
+				W.deferred = append(W.deferred, x)
+				W.closeName[x] = cc.StaticCallee().Name()
+				classifyArg(x, arg)
+			}
+		})
+		_ = errT
+		c02ErrorSurfaces(r, W)
+	}
+	if nSites == 0 {
+		r.Undecide("%s returns its outcome as an error but no caller was found; who closes the pipe cannot be established", c02Name(p, loop))
+	}
+}
+
+func c02TopParent(f *ssa.Function) *ssa.Function {
+	for f.Parent() != nil {
+		f = f.Parent()
+	}
+	return f
 }
 
 // c02CarrierKnownNonNil: a dominating edge established v != nil where v is
@@ -672,11 +1215,17 @@ func c02ErrorSurfaces(r *Report, L *c02Loop) {
 		if k != c02CloseMaybe {
 			return k
 		}
-		arg := cc.Args[1]
-		if (s&rdp != 0 && c02CarriesAny(arg, L.readErrs)) || (s&pfp != 0 && c02CarriesAny(arg, L.callErrs)) {
+		arg := L.closeArg[in]
+		if arg != nil && ((s&rdp != 0 && c02CarriesAny(arg, L.readErrs)) || (s&pfp != 0 && c02CarriesAny(arg, L.callErrs))) {
 			return c02CloseErr
 		}
-		return c02CloseClean
+		if s&(rdp|pfp) == 0 || c02CarriesAny(arg, L.readErrs) || c02CarriesAny(arg, L.callErrs) {
+			// nothing pending (or the pending error is not the one carried): the argument is nil on this path
+			return c02CloseClean
+		}
+		// an error value of unknown nilness that is not the pending error itself (e.g. produced by a helper
+		// that cannot be summarised): neither "closes with an error" nor "closes cleanly" is established
+		return c02CloseMaybe
 	}
 	replay := false
 	isRead := map[ssa.Instruction]bool{}
@@ -711,7 +1260,7 @@ func c02ErrorSurfaces(r *Report, L *c02Loop) {
 					if closeState(s) != 0 {
 						return s
 					}
-					if effKind(in, x.Common(), s) == c02CloseErr {
+					if effKind(in, x.Common(), s) != c02CloseClean {
 						return setClose(s, 1)
 					}
 					return setClose(s, 2)
@@ -726,12 +1275,11 @@ func c02ErrorSurfaces(r *Report, L *c02Loop) {
 		case isCall[in]:
 			return mapStates(st, func(s int) int { return s | pfp })
 		case isClose[in]:
-			cc := in.(*ssa.Call).Common()
 			return mapStates(st, func(s int) int {
 				if closeState(s) != 0 {
 					return s
 				}
-				if effKind(in, cc, s) == c02CloseErr {
+				if effKind(in, nil, s) != c02CloseClean {
 					return setClose(s, 1)
 				}
 				return setClose(s, 2)
@@ -752,6 +1300,24 @@ func c02ErrorSurfaces(r *Report, L *c02Loop) {
 				return mapStates(st, func(s int) int {
 					if s&badsent != 0 {
 						// the source error is known to be a non-EOF sentinel: a nil value here is a replacement, not the error
+						return s &^ (clr &^ rdp)
+					}
+					return s &^ clr
+				})
+			}
+		}
+		if v, kind, ok := c02PredTest(p, from, to); ok {
+			// an extracted error-classification helper: its outcome on this edge says the error is nil / nil-or-EOF
+			clr := 0
+			if c02CarriesAny(v, L.readErrs) && c02PureCarrier(v, pureSources) {
+				clr |= rdp
+			}
+			if kind == 3 && c02CarriesAny(v, L.callErrs) {
+				clr |= pfp
+			}
+			if clr != 0 {
+				return mapStates(st, func(s int) int {
+					if s&badsent != 0 {
 						return s &^ (clr &^ rdp)
 					}
 					return s &^ clr
@@ -804,17 +1370,27 @@ func c02ErrorSurfaces(r *Report, L *c02Loop) {
 	// clean close while pending
 	checkClose := func(in ssa.Instruction, cc *ssa.CallCommon, st uint64, atPos string) {
 		bad := ""
+		maybe := false
 		for s := 0; s < 32; s++ {
 			if st&(1<<uint(s)) == 0 || closeState(s) != 0 {
 				continue
 			}
-			if s&(rdp|pfp) != 0 && effKind(in, cc, s) != c02CloseErr {
-				bad = pendingText(s)
+			if s&(rdp|pfp) != 0 {
+				switch effKind(in, cc, s) {
+				case c02CloseClean:
+					bad = pendingText(s)
+				case c02CloseMaybe:
+					maybe = true
+				}
 			}
 		}
+		if bad == "" && maybe {
+			r.Undecide("%s: the error handed to the close at %s is neither visibly non-nil nor the pending error itself; cannot classify the close", L.name, atPos)
+			return
+		}
 		what := "Close"
-		if cc.StaticCallee() != nil {
-			what = cc.StaticCallee().Name()
+		if n := L.closeName[in]; n != "" {
+			what = n
 		}
 		construct := fmt.Sprintf("%s out.%s [%s]", L.name, what, c02CloseContext(L, in))
 		r.Check(bad == "", "C02.T3-error-surfaces", construct, atPos,
@@ -823,7 +1399,7 @@ func c02ErrorSurfaces(r *Report, L *c02Loop) {
 	}
 	for _, cl := range L.closes {
 		if st, ok := ff.Before(cl); ok {
-			checkClose(cl, cl.Common(), st, p.Pos(cl.Pos()))
+			checkClose(cl, nil, st, p.Pos(instrPos(cl)))
 		}
 	}
 	// deferred closes are judged at the returns below (state before Return already includes them)
@@ -835,7 +1411,7 @@ func c02ErrorSurfaces(r *Report, L *c02Loop) {
 			if st&(1<<uint(s)) == 0 {
 				continue
 			}
-			if closeState(s) == 0 {
+			if closeState(s) == 0 && !L.retErr {
 				if s&(rdp|pfp) != 0 {
 					openPending = append(openPending, p.Pos(instrPos(ret))+": "+pendingText(s))
 				} else {
@@ -865,10 +1441,14 @@ func c02CloseContext(L *c02Loop, in ssa.Instruction) string {
 	case *ssa.Defer:
 		cc = x.Common()
 	}
-	if cc == nil || len(cc.Args) < 2 {
+	arg := L.closeArg[in]
+	_ = cc
+	if arg == nil {
+		if L.closeKind[in] == c02CloseErr {
+			return "error by construction"
+		}
 		return "clean"
 	}
-	arg := cc.Args[1]
 	switch {
 	case isNilConst(arg):
 		return "nil"
@@ -948,10 +1528,10 @@ func c02Counter(r *Report, L *c02Loop) {
 	p := L.p
 	for _, cl := range L.calls {
 		construct := L.name + " processFn segment number"
-		if L.numIdx >= len(cl.Call.Args) {
+		if false {
 			continue
 		}
-		n := cl.Call.Args[L.numIdx]
+		n := L.numArg(cl)
 		// look through integer conversions (narrowing is judged by the range rule below)
 		inner := n
 		for i := 0; i < 3; i++ {
@@ -1153,6 +1733,10 @@ func c02CounterRange(r *Report, L *c02Loop, cl *ssa.Call, ctr *ssa.Phi, arg ssa.
 		case token.LEQ:
 			bound = ku
 		case token.NEQ:
+			// counter+step != 0: the increment does not wrap (unsigned counter)
+			if ku == 0 && add > 0 && add == step && ctrMax == limit {
+				return true
+			}
 			// excludes one value: a bound only if that value is the largest the type can hold
 			if ku != ctrMax || add != 0 {
 				return false
@@ -1160,6 +1744,11 @@ func c02CounterRange(r *Report, L *c02Loop, cl *ssa.Call, ctr *ssa.Phi, arg ssa.
 			bound = ku - 1
 		default:
 			return false
+		}
+		// a bound on the counter itself that holds at the call (the guard edge dominates the call, and the
+		// counter is the loop-carried value used in that same iteration) needs no slack for the increment
+		if add == 0 && bound <= limit && edgeDominates(from, to, cl.Block()) {
+			return true
 		}
 		// next value = counter + step; (counter+add) <= bound  =>  counter+step <= bound - add + step
 		next := bound - uint64(add) + uint64(step)
@@ -1176,10 +1765,10 @@ func c02CounterRange(r *Report, L *c02Loop, cl *ssa.Call, ctr *ssa.Phi, arg ssa.
 	for _, x := range L.closes {
 		isClose[x] = true
 	}
-	if L.lastIdx >= len(cl.Call.Args) {
+	if false {
 		return
 	}
-	lv := cl.Call.Args[L.lastIdx]
+	lv := L.lastArg(cl)
 	env := &c02Env{bind: map[ssa.Value]ssa.Value{}, known: map[ssa.Value]bool{}}
 	if k, isConst := lv.(*ssa.Const); isConst {
 		if k.Value != nil && k.Value.ExactString() == "true" {
@@ -1292,10 +1881,10 @@ func c02Finality(r *Report, L *c02Loop) {
 			hits, ex, p.Pos(L.fn.Pos()), nil)
 	}
 	for _, cl := range L.calls {
-		if L.lastIdx >= len(cl.Call.Args) {
+		if false {
 			continue
 		}
-		lv := cl.Call.Args[L.lastIdx]
+		lv := L.lastArg(cl)
 		idx := instrIndex(cl) + 1
 		constVal, isConst := false, false
 		if k, ok := lv.(*ssa.Const); ok && k.Value != nil {
@@ -1346,142 +1935,244 @@ func c02Finality(r *Report, L *c02Loop) {
 // ---------------------------------------------------------------------------
 // T7: wiring of Decrypt
 
-func c02CheckWiring(p *Prog, r *Report, decrypt, ps, decSeg *ssa.Function) {
-	name := FuncName(p, decrypt)
-	// processFn parameter index of processSegments
-	procIdx, outIdx := -1, -1
-	for i, pa := range ps.Params {
-		if _, ok := pa.Type().Underlying().(*types.Signature); ok {
-			procIdx = i
+// c02FuncTarget resolves a function-typed value to the function it denotes:
+// a function, a closure, a bound method (the method itself).
+func c02FuncTarget(p *Prog, v ssa.Value) *ssa.Function {
+	v = c02Origin(v)
+	switch x := v.(type) {
+	case *ssa.Function:
+		return origin(x)
+	case *ssa.MakeClosure:
+		f, _ := x.Fn.(*ssa.Function)
+		if f == nil {
+			return nil
 		}
-		if c02IsPipeWriter(pa.Type()) {
-			outIdx = i
-		}
-	}
-	if procIdx < 0 || outIdx < 0 {
-		undecided("processSegments no longer takes a pipe writer and a segment processor")
-	}
-	var sites []ssa.CallInstruction
-	var visit func(fn *ssa.Function)
-	visit = func(fn *ssa.Function) {
-		allInstrs(fn, func(in ssa.Instruction) {
-			if ci, ok := in.(ssa.CallInstruction); ok && staticCallee(ci) == ps {
-				sites = append(sites, ci)
-			}
-		})
-		for _, a := range fn.AnonFuncs {
-			visit(a)
-		}
-	}
-	visit(decrypt)
-	if len(sites) == 0 {
-		// one level of helpers called from Decrypt
-		seenH := map[*ssa.Function]bool{}
-		allInstrs(decrypt, func(in ssa.Instruction) {
-			if ci, ok := in.(ssa.CallInstruction); ok {
-				if h := staticCallee(ci); h != nil && p.InModule(h) && h != decrypt && !seenH[h] && len(h.Blocks) > 0 {
-					seenH[h] = true
-					visit(h)
+		if f.Synthetic != "" {
+			// bound method wrapper / thunk: the method it wraps
+			if obj, ok := f.Object().(*types.Func); ok {
+				if m := p.SSA.FuncValue(obj); m != nil {
+					return origin(m)
 				}
 			}
-		})
+		}
+		return origin(f)
+	case *ssa.ChangeType:
+		return c02FuncTarget(p, x.X)
 	}
-	if len(sites) == 0 {
-		r.Undecide("%s no longer calls processSegments directly or from a closure: the decrypt data path is not recognised", name)
-		return
+	return nil
+}
+
+// c02CheckWiring (T7): the stream Decrypt returns is the read half of an
+// io.Pipe whose write half is held by a segment loop, and the processor that
+// loop is given (or calls) on the way from Decrypt authenticates.
+func c02CheckWiring(p *Prog, r *Report, ro *c02Roles) {
+	decrypt := ro.entry
+	name := FuncName(p, decrypt)
+	isLoop := map[*ssa.Function]bool{}
+	for _, l := range ro.loops {
+		isLoop[l] = true
 	}
-	for _, site := range sites {
-		args := site.Common().Args
-		pf := args[procIdx]
-		var target *ssa.Function
-		var recv ssa.Value
-		switch x := pf.(type) {
-		case *ssa.MakeClosure:
-			target, _ = x.Fn.(*ssa.Function)
-			if len(x.Bindings) == 1 {
-				recv = x.Bindings[0]
+	var fns []*ssa.Function
+	for f := range ro.reach {
+		fns = append(fns, f)
+	}
+	sort.Slice(fns, func(i, j int) bool { return FuncName(p, fns[i]) < FuncName(p, fns[j]) })
+
+	// (1) processors
+	nProc := 0
+	var judge func(where string, pos token.Pos, v ssa.Value, static *ssa.Function)
+	judgeDepth := 0
+	judge = func(where string, pos token.Pos, v ssa.Value, static *ssa.Function) {
+		target := static
+		if target == nil {
+			target = c02FuncTarget(p, v)
+		}
+		if pa, isParam := c02Origin(v).(*ssa.Parameter); target == nil && v != nil && isParam {
+			// handed through by an intermediate function: look at its call sites on the way from Decrypt
+			w := pa.Parent()
+			idx := c02ParamIndex(w, pa)
+			n := 0
+			if judgeDepth < 4 {
+				judgeDepth++
+				for _, g := range fns {
+					allInstrs(g, func(in ssa.Instruction) {
+						if ci, ok := in.(ssa.CallInstruction); ok && staticCallee(ci) == w && idx >= 0 && idx < len(ci.Common().Args) {
+							n++
+							judge(where, ci.Pos(), ci.Common().Args[idx], nil)
+						}
+					})
+				}
+				judgeDepth--
 			}
-		case *ssa.Function:
-			target = x
+			if n > 0 {
+				return
+			}
+		}
+		if target == nil && v != nil {
+			// a struct field (the loop is a method of a small struct): every value stored
+			// into that field on the way from Decrypt
+			if id, _, ok := fieldOfValue(c02Origin(v)); ok {
+				n := 0
+				for _, g := range fns {
+					allInstrs(g, func(in ssa.Instruction) {
+						st, ok := in.(*ssa.Store)
+						if !ok {
+							return
+						}
+						if fa, ok := st.Addr.(*ssa.FieldAddr); ok && fieldIDOfAddr(fa) == id {
+							n++
+							judge(where, st.Pos(), st.Val, nil)
+						}
+					})
+				}
+				if n > 0 {
+					return
+				}
+			}
 		}
 		if target == nil {
-			r.Undecide("%s: the segment processor handed to processSegments is not a method value or function (%T)", name, pf)
-			continue
+			r.Undecide("%s: the segment processor used by %s is not a function, closure or method value whose body can be found (%T)", name, where, v)
+			return
 		}
-		obj := target.Object()
-		construct := name + " -> processSegments segment processor"
-		if obj == nil || target.Synthetic == "" && target.Parent() != nil {
-			r.Undecide("%s: the segment processor is a function literal; cannot follow", name)
-			continue
-		}
-		r.Check(obj == decSeg.Object(), "C02.T7-wiring", construct, p.Pos(site.Pos()),
-			"Decrypt drives processSegments with fileKey.DecryptSegment",
-			fmt.Sprintf("Decrypt drives processSegments with %s instead of fileKey.DecryptSegment: the payload is not authenticated by the rules checked here", target.Name()))
-		// the file key comes from importFileKey
-		if recv != nil {
-			okKey := false
-			v := recv
-			if u, isLoad := v.(*ssa.UnOp); isLoad {
-				v = u.X
-			}
-			if fv, isFV := v.(*ssa.FreeVar); isFV {
-				if b := resolveFreeVar(fv); b != nil {
-					v = b
-				}
-			}
-			// direct extract of importFileKey, or a cell stored from it
-			fromImport := func(x ssa.Value) bool {
-				if ex, ok := x.(*ssa.Extract); ok {
-					if call, ok := ex.Tuple.(*ssa.Call); ok && staticCallee(call) != nil && staticCallee(call).Name() == "importFileKey" {
-						return true
-					}
-				}
-				return false
-			}
-			if fromImport(v) {
-				okKey = true
-			} else if al, isAl := v.(*ssa.Alloc); isAl {
-				for _, rr := range refs(al) {
-					if st, ok := rr.(*ssa.Store); ok && st.Addr == ssa.Value(al) && fromImport(st.Val) {
-						okKey = true
-					}
-				}
-			}
-			if !okKey {
-				r.Note("C02 T7: the fileKey bound to DecryptSegment in %s is not visibly the result of importFileKey (not decided)", name)
-			}
-		}
-		// the writer is half of an io.Pipe whose reader half is returned
-		w := c02Origin(args[outIdx])
-		var pipe *ssa.Call
-		if ex, ok := w.(*ssa.Extract); ok && ex.Index == 1 {
-			if call, ok := ex.Tuple.(*ssa.Call); ok && callIs(call, "io", "", "Pipe") {
-				pipe = call
-			}
-		}
-		construct2 := name + " returned stream"
-		if pipe == nil {
-			r.Undecide("%s: the writer handed to processSegments is not visibly the write half of io.Pipe()", name)
-			continue
-		}
-		okRet, nOK := true, 0
-		allInstrs(decrypt, func(in ssa.Instruction) {
-			ret, ok := in.(*ssa.Return)
-			if !ok || len(ret.Results) != 2 || isNilConst(ret.Results[0]) {
-				return
-			}
-			if c02IsPipeReaderOf(p, ret.Results[0], pipe, 2) {
-				nOK++
-				return
-			}
-			okRet = false
-		})
-		if !okRet || nOK == 0 {
-			r.Undecide("%s: a non-nil stream returned by Decrypt is not visibly the read half of the pipe fed by processSegments", name)
-			continue
-		}
-		r.OK("C02.T7-wiring", construct2, p.Pos(pipe.Pos()), "Decrypt returns the read half of the pipe written by processSegments")
+		nProc++
+		construct := name + " -> segment loop processor"
+		r.Check(c02HasOpen(p, target, 0, map[*ssa.Function]bool{}), "C02.T7-wiring", construct, p.Pos(pos),
+			"the processor Decrypt drives the segment loop with authenticates each segment (cipher.AEAD.Open)",
+			fmt.Sprintf("Decrypt drives the segment loop with %s, which never calls cipher.AEAD.Open (neither itself nor through same-package functions): the payload is released without authentication", FuncName(p, target)))
 	}
+	for _, f := range fns {
+		allInstrs(f, func(in ssa.Instruction) {
+			ci, ok := in.(ssa.CallInstruction)
+			if !ok {
+				return
+			}
+			// a call (or go/defer) of a loop function with a processor-typed argument
+			if callee := staticCallee(ci); callee != nil && isLoop[callee] {
+				for _, a := range ci.Common().Args {
+					if sig, ok := a.Type().Underlying().(*types.Signature); ok && c02ProcSig(sig) {
+						judge(FuncName(p, callee), ci.Pos(), a, nil)
+					}
+				}
+			}
+			// a loop function that calls the processor statically / through a captured or stored value
+			if isLoop[f] && c02ProcCall(ci) {
+				cc := ci.Common()
+				if sc := staticCallee(ci); sc != nil {
+					judge(FuncName(p, f), ci.Pos(), nil, sc)
+				} else if _, isParam := cc.Value.(*ssa.Parameter); !isParam {
+					judge(FuncName(p, f), ci.Pos(), cc.Value, nil)
+				}
+			}
+		})
+	}
+	if nProc == 0 && len(r.Undecided) == 0 {
+		r.Undecide("%s: no place was found where the segment loop receives (or calls) its segment processor", name)
+	}
+
+	// (2) the pipe
+	var pipes []*ssa.Call
+	for _, f := range fns {
+		allInstrs(f, func(in ssa.Instruction) {
+			if call, ok := in.(*ssa.Call); ok && callIs(call, "io", "", "Pipe") {
+				pipes = append(pipes, call)
+			}
+		})
+	}
+	feedsLoop := func(pipe *ssa.Call) bool {
+		w := callResult(pipe, 1)
+		if w == nil {
+			return false
+		}
+		fed := false
+		var follow func(v ssa.Value, depth int)
+		follow = func(v ssa.Value, depth int) {
+			if depth > 3 {
+				return
+			}
+			for _, rr := range refs(v) {
+				switch u := rr.(type) {
+				case ssa.CallInstruction:
+					if callee := staticCallee(u); callee != nil {
+						if isLoop[callee] {
+							fed = true
+						} else if c02SamePkg(callee, decrypt.Pkg.Pkg) {
+							// a function that hands the writer on to the loop
+							for g := range c02Reach([]*ssa.Function{callee}, decrypt.Pkg.Pkg) {
+								if isLoop[g] {
+									fed = true
+								}
+							}
+						}
+					}
+					// a closure that is the loop (go func(){…}()) receiving the writer as an argument
+				case *ssa.Store:
+					if u.Val == v {
+						if al, ok := u.Addr.(*ssa.Alloc); ok {
+							follow(al, depth+1)
+						}
+						// stored into a struct field that a loop function reads its pipe from
+						if fa, ok := u.Addr.(*ssa.FieldAddr); ok {
+							id := fieldIDOfAddr(fa)
+							for l := range isLoop {
+								allInstrs(l, func(j ssa.Instruction) {
+									if fa2, ok := j.(*ssa.FieldAddr); ok && fieldIDOfAddr(fa2) == id {
+										fed = true
+									}
+								})
+							}
+						}
+					}
+				case *ssa.MakeClosure:
+					if f, ok := u.Fn.(*ssa.Function); ok {
+						if isLoop[origin(f)] {
+							fed = true
+						}
+						// or a closure that merely calls the loop
+						for g := range c02Reach([]*ssa.Function{origin(f)}, decrypt.Pkg.Pkg) {
+							if isLoop[g] {
+								fed = true
+							}
+						}
+					}
+				case *ssa.Phi:
+					follow(u, depth+1)
+				}
+			}
+		}
+		follow(w, 0)
+		return fed
+	}
+	var pipe *ssa.Call
+	for _, pc := range pipes {
+		if feedsLoop(pc) {
+			if pipe != nil {
+				r.Undecide("%s: more than one io.Pipe feeds a segment loop; cannot tell which stream is returned", name)
+				return
+			}
+			pipe = pc
+		}
+	}
+	if pipe == nil {
+		r.Undecide("%s: no io.Pipe() whose write half reaches the segment loop was found on the way from Decrypt", name)
+		return
+	}
+	okRet, nOK := true, 0
+	allInstrs(decrypt, func(in ssa.Instruction) {
+		ret, ok := in.(*ssa.Return)
+		if !ok || len(ret.Results) != 2 || isNilConst(ret.Results[0]) {
+			return
+		}
+		if c02IsPipeReaderOf(p, c02Ret(ret, 0), pipe, 3) {
+			nOK++
+			return
+		}
+		okRet = false
+	})
+	if !okRet || nOK == 0 {
+		r.Undecide("%s: a non-nil stream returned by Decrypt is not visibly the read half of the pipe that feeds the segment loop", name)
+		return
+	}
+	r.OK("C02.T7-wiring", name+" returned stream", p.Pos(pipe.Pos()), "Decrypt returns the read half of the pipe written by the segment loop")
 }
 
 // c02Origin follows a value through closure capture (free variable -> cell
@@ -1560,7 +2251,7 @@ func c02IsPipeReaderOf(p *Prog, v ssa.Value, pipe *ssa.Call, depth int) bool {
 			return
 		}
 		n++
-		if !c02IsPipeReaderOf(p, ret.Results[0], pipe, depth-1) {
+		if !c02IsPipeReaderOf(p, c02Ret(ret, 0), pipe, depth-1) {
 			all = false
 		}
 	})
@@ -1600,4 +2291,14 @@ func c02Notes(p *Prog, r *Report, decrypt *ssa.Function) {
 			r.Note("C02 T2 (note only): VerifyHeaderSignature does not compare the MAC with a constant-time primitive")
 		}
 	}
+}
+
+func c02CountViolations(r *Report) int {
+	n := 0
+	for _, o := range r.Obs {
+		if o.Status == StViolation {
+			n++
+		}
+	}
+	return n
 }
